@@ -71,6 +71,7 @@ class World:
         self.nwx = 0
         self.nack = 0
         self.in_callback = False   # the link-error callback is running (inside the comm thread)
+        self.landmarks = False     # replay mode (extra yield points that let the harness stop threads at the spec's grain)
         self.drv = None
         self.user = None           # ThreadRec of the application thread
         self.usbdev = FakeUsbDev(self)
@@ -175,6 +176,9 @@ class FakeUsbDev:
             _park('dev.read', self, 0.0)
         if self.w.gone:
             raise _usb_error('No such device (it may have been disconnected)', -4)
+        self.w.log('rr', 0)
+        if self.w.landmarks:
+            _park('dev.rdexit', self, 0.0)      # replay mode: the thread can be held just before the read returns
         if self.w.down:
             return array.array('B', self.w.down.pop(0))
         raise _usb_error('Operation timed out', -7)
@@ -582,12 +586,12 @@ def execute(sc, mutant=None):
     w = World(sc)
     sink = io.StringIO()
     with contextlib.redirect_stdout(sink), installed(w, mutant):
-        with vsched.scheduler(_policy(sc.get('policy', ('fifo', 0))), max_steps=60000) as s:
+        with vsched.scheduler(_policy(sc.get('policy', ('fifo', 0))), max_steps=20000) as s:
             w.drv = new_driver(sc['kind'])
             app = App(w)
             u = s.spawn(lambda: app.run_ops(sc['ops']), 'user')
             w.user = u
-            r1 = s.run(until=lambda: u.finished, horizon=120.0)
+            r1 = s.run(until=lambda: u.finished, horizon=60.0)
             s.run(horizon=s.now + 0.03)
             rep = s.report()
             dead = [t for t in rep if t['status'] == 'dead']
@@ -825,17 +829,28 @@ def judge(out, traces, label):
     return res
 
 
+def judged_events(t):
+    """The events as the trace spec saw them (event indices in verdicts refer to this list)."""
+    return [e for e in t['ev'] if e['e'] not in DROP]
+
+
 def signature(t, clause, at):
     """clause / driver / what preceded the offending write."""
-    ev = t['ev']
+    ev = judged_events(t)
     i = max(0, min(len(ev), at) - 1)
     if clause == 'ClosedSilent':
         how = 'close'
         for j in range(i - 1, -1, -1):
             if ev[j]['e'] == 'closeb':
+                gone = False
+                for e in ev[:j]:
+                    if e['e'] == 'unplug':
+                        gone = True
+                    elif e['e'] == 'conn' and e['a'] == 1:
+                        gone = False
                 if ev[j].get('f', 'none') != 'none':
                     how = 'close-raises'
-                elif any(e['e'] == 'unplug' for e in ev[:j]) and not any(e['e'] == 'connb' for e in ev[[k for k, e in enumerate(ev[:j]) if e['e'] == 'unplug'][-1]:j]):
+                elif gone:
                     how = 'close-unplugged'
                 if ev[j].get('cb'):
                     how += '-in-callback'
@@ -868,7 +883,7 @@ def report_violations(out, scs, res, mutant=None):
             sc = scs[t['id'] - 1]
             lo = max(0, at - 12)
             out.violation(signature(t, clause, at), clause,
-                          {'event_index': at, 'events': t['ev'][lo:at + 2], 'ops': sc['ops'], 'detail': t['detail']},
+                          {'event_index': at, 'events': judged_events(t)[lo:at + 1], 'ops': sc['ops'], 'detail': t['detail']},
                           {'driver_scenario': sc})
     return n
 
@@ -910,6 +925,7 @@ def replay_behaviour(job):
     with contextlib.redirect_stdout(sink), installed(w):
         with vsched.scheduler(vsched.FifoPolicy(), max_steps=200000) as s:
             w.drv = new_driver(kind)
+            w.landmarks = True
             app = App(w, landmarks=True)
             todo = []
 
@@ -1107,13 +1123,19 @@ def replay_behaviour(job):
                     elif name == 'TRead':
                         rec = usb_rec()
                         n0 = nev('rd')
-                        ok = rec is not None and not rec.finished and kind_of(rec) in ('thread.begin', 'dev.read', 'cb.end')
+                        ok = rec is not None and not rec.finished and kind_of(rec) in ('thread.begin', 'dev.rdexit', 'cb.end')
                         if ok:
                             for _ in range(50):
                                 if rec.finished or (nev('rd') > n0 and kind_of(rec) == 'dev.read'):
                                     break
                                 grant(rec)
                             ok = nev('rd') == n0 + 1 and kind_of(rec) == 'dev.read'
+                    elif name == 'TRet':
+                        rec = usb_rec()
+                        ok = rec is not None and not rec.finished and kind_of(rec) == 'dev.read'
+                        if ok:
+                            grant(rec)
+                            ok = kind_of(rec) == 'dev.rdexit'
                     elif name == 'TErr':
                         rec = usb_rec()
                         n0 = nev('lerr')
@@ -1259,12 +1281,23 @@ def run(out, tier, seed, kinds=KINDS):
         'drivers: the application\'s API calls on one driver object and the close() issued by the link-error callback do not '
         'overlap each other (the comm threads run concurrently with all of them)',
     ]
+    phases = []
+    import os
+    import time as _time
+
+    def mark(name, _last=[_time.time(), sum(os.times()[:4])]):
+        now, cpu = _time.time(), sum(os.times()[:4])
+        phases.append({'phase': name, 'wall_s': round(now - _last[0], 1), 'cpu_s': round(cpu - _last[1], 1)})
+        _last[0], _last[1] = now, cpu
+    _init()         # once, before the worker pools are forked (load_cflib is idempotent; the workers inherit it)
     # 1. design spec
     replays, tour_info = design_spec(out, tier, seed)
+    mark('design spec: TLC runs')
 
     # 2. spec -> code
     traces = spec_to_code(out, replays, tour_info, kinds)
     scs = [None] * len(traces)
+    mark('spec -> code: replays')
 
     # 3. code -> spec: exhaustive enumeration + targeted + seeded random
     depth = DEPTH[tier]
@@ -1276,16 +1309,18 @@ def run(out, tier, seed, kinds=KINDS):
         space[k] = len(e)
         own += e + targeted_scenarios(k) + random_scenarios(k, nrand, rng)
     got = run_scenarios(own)
+    mark('code -> spec: executions')
     scs += own
     traces += got
     for i, t in enumerate(traces):
         t['id'] = i + 1
     res = judge(out, traces, 'real drivers')
+    mark('trace validation by TLC')
     report_violations(out, scs_for_report(scs), res)
     nconf = sum(1 for x in res if x[3])
     out.conformance['drivers_code_to_spec'] = {
         'traces': len(res), 'explained_by_design_spec': nconf,
-        'first_unexplained': [{'kind': x[0]['kind'], 'event_index': x[4], 'events': x[0]['ev'][max(0, x[4] - 6):x[4] + 1],
+        'first_unexplained': [{'kind': x[0]['kind'], 'event_index': x[4], 'events': judged_events(x[0])[max(0, x[4] - 6):x[4] + 1],
                                'ops': (scs[x[0]['id'] - 1] or {}).get('ops')} for x in res if not x[3]][:3]}
     out.evaluations += len(traces)
     out.extra['drivers'] = {
@@ -1301,17 +1336,22 @@ def run(out, tier, seed, kinds=KINDS):
                         for i in (len(own) // 3, len(own) // 2)]
 
     # 4. sensitivity: in-memory mutants (all judged in one batch), corrupted trace
-    mt = []
+    mjobs = []
     owner = []
     for name in sorted(MUTANTS):
         k = MUTANT_KIND[name]
         if k not in kinds:
             continue
+        try:                                # a mutant that does not fit the tree under test is skipped, not a failure
+            MUTANTS[name]()()
+        except Exception as e:
+            out.sensitivity['drivers-mutant:' + name] = 'skipped (not applicable to this tree: %s)' % type(e).__name__
+            continue
         sub = enumerate_scenarios(k, 2) + targeted_scenarios(k)
-        part = run_scenarios(sub, mutant=name)
-        mt += part
-        owner += [name] * len(part)
-    good = next((t for t in traces if t['kind'] in ('usb', 'tcp', 'udp') and _movable(t)), None)
+        mjobs += [(sc, name) for sc in sub]
+        owner += [name] * len(sub)
+    mt = common.pmap(_exec_job, mjobs, init=_init, maxtasks=400)
+    good = next((t for t in traces if _movable(t)), None)
     if good is None:
         raise common.MachineryError('no trace with a request write followed by a close to corrupt')
     t0 = copy.deepcopy(good)
@@ -1323,9 +1363,12 @@ def run(out, tier, seed, kinds=KINDS):
     owner.append('<corrupted>')
     for n, t in enumerate(mt):
         t['id'] = n + 1
+    mark('mutant executions')
     o2 = common.Outcome('C10', tier, seed)
     mres = judge(o2, mt, 'mutants')
     out.tlc_runs.append(o2.tlc_runs[-1])
+    mark('mutant trace validation')
+    out.extra['drivers']['phases'] = phases
     for name in sorted(set(owner)):
         mine = [x for x, o in zip(mres, owner) if o == name]
         mbad = [x for x in mine if x[1] != 'ok']
